@@ -169,10 +169,15 @@ def adaptive(
 
 def _exponential_cap(base_s: float, growth: float, attempt: int, max_s: float) -> float:
     """min(max_s, base_s * growth**attempt) without overflowing for large attempts."""
-    try:
-        return min(max_s, base_s * (growth**attempt))
-    except OverflowError:
-        return max_s if base_s > 0 else 0.0
+    cap = base_s
+    left = attempt
+    # growth**attempt alone can exceed the float range although the product does not
+    # (tiny base_s), so multiply in chunks and stop once max_s is reached.
+    while left > 0 and 0.0 < cap < max_s:
+        step = min(left, 256)
+        cap *= growth**step
+        left -= step
+    return min(max_s, cap)
 
 
 def decorrelated_jitter(base_s: float = 0.25, max_s: float = 30.0) -> StrategyFn:
